@@ -21,7 +21,7 @@ func init() {
 			"for every put* method the sizing pass (prepEncoder) and the writing pass (realEncoder) account for the same number of bytes, compared as symbolic linear forms per argument condition (C09.prep-real); length and CRC fields are written and checked over the same byte range with the same polynomial per container (C09.crc-len, the polynomial via C09.mirror tokens). " +
 			"no encoding step whose error is non-nil is answered with `return nil` or ignored (C09.enc-err, 338 steps). " +
 			"NOT covered: value-level equality (which bytes), compression codecs, varint arithmetic, agreement with the Kafka specification itself.",
-		Rules: []func(*Ctx){c09Mirror, c09Order, c09Balance, c09Keys, c09PrepReal, c09Null, c09CrcLen, c09EncErr, c09EarlyAccept, c09FreshElement, c10ErrLost, c09PoolOnce, c09Sentinel, c04OwnedOutput, c09NullVsEmpty, c09DecodedElementKept, c09PoolOnceDeferredClosure, c09VarintFastPath, c09VersionThreaded, c09MessageSetStopsAtV2, c09FlatArrayUncapped, c09RecordsFresh, c09SlabNotReused, c10NoNilIntoPool},
+		Rules: []func(*Ctx){c09Mirror, c09Order, c09Balance, c09Keys, c09PrepReal, c09Null, c09CrcLen, c09EncErr, c09EarlyAccept, c09FreshElement, c10ErrLost, c09PoolOnce, c09Sentinel, c04OwnedOutput, c09NullVsEmpty, c09DecodedElementKept, c09PoolOnceDeferredClosure, c09VarintFastPath, c09VersionThreaded, c09MessageSetStopsAtV2, c09FlatArrayUncapped, c09RecordsFresh, c09SlabNotReused, c10NoNilIntoPool, c09VarintReserve},
 	})
 }
 
